@@ -99,6 +99,13 @@ def _store_at(o, v, index):
 
 def apply(store, op):
     t = op[0]
+    if t == 'setfrom':
+        # the string the getter returns for (src, sidx) handed straight back to the by-name setter: the same as setting a copy
+        _, path, index, src, sidx = op
+        so = _opt(store, src)
+        if so is None or so.decl.kind != 'str' or so.decl.has('S') or sidx >= len(so.values) or so.values[sidx] is None:
+            return None
+        return apply(store, ('set', 'str', path, so.values[sidx], index))
     if t in ('set', 'oset'):
         _, kind, path, value, index = op
         if value is None:
@@ -154,6 +161,10 @@ def apply(store, op):
             if v != ACCEPT:
                 return FAIL
             vals.append(val)
+        if o.decl.has('S'):
+            o.simple = vals[-1]      # the caller's variable holds the value
+            o.modified = True
+            return OK
         o.values = vals
         o.pristine = False
         o.modified = True
@@ -168,6 +179,10 @@ def apply(store, op):
             return None
         if v != ACCEPT:
             return 0        # NULL
+        if o.decl.has('S'):
+            o.simple = val
+            o.modified = True
+            return 1
         if o.decl.is_list:
             if o.pristine:
                 o.values = []
@@ -272,6 +287,9 @@ def driver_line(op, ctx='A'):
         if index is not None:
             l += ' %d' % index
         return l, 'r ' + _KOPS[kind]
+    if t == 'setfrom':
+        _, path, index, src, sidx = op
+        return 'setstr_from %s %s %d %s %d' % (ctx, enc(path), index, enc(src), sidx), 'r setstr_from'
     if t == 'oset':
         _, kind, path, value, index = op
         return 'o%s %s %s %d' % (_KOPS[kind], optref(ctx, path), fmtval(kind, value), index), 'r o' + _KOPS[kind]
